@@ -156,7 +156,7 @@ def make_sequence(eng, k, n, alphabet):
 
 # ------------------------------------------------------------------- documents: rendering vs the myst-anchors command, all depths
 
-DOC_TITLES = ["a", "a-1", "A", "b c", "?!"]
+DOC_TITLES = ["a", "a-1", "A", "b c", "?!", "a-2"]
 
 
 def expected_slugs(levels, titles, depth):
@@ -280,7 +280,7 @@ def make_doc(eng, k, depths, with_custom):
     def body():
         c.reset()
         levels = [1 + c.choose(3) for _ in range(k)]
-        titles = [c.pick(DOC_TITLES if k <= 2 else [t_ for t_ in DOC_TITLES if t_ != "A"]) for _ in range(k)]
+        titles = [c.pick(DOC_TITLES if k <= 2 else [t_ for t_ in DOC_TITLES if t_ not in ("A", "b c")]) for _ in range(k)]
         depth = c.pick(depths)
         custom = (c.choose(len(EXC_CLASSES) + 1) - 1) if with_custom else -1
         custom = None if custom < 0 else custom
